@@ -218,10 +218,10 @@ Expected(rules, m, p, method) ==
       okM  == {c \in allM : MethodOK(rules[c.r], method)}
       \* a 405 is required when a rule admits the path for another method without a redirect being
       \* involved: as it is, or (strict_slashes off for that rule) with one extra trailing slash, which
-      \* is matched directly.  When the other-method rules admit it only through the missing-slash
-      \* form of a branch rule (redirect when strict; not counted by the matcher when not strict)
-      \* 404 and 405 are both accepted
-      exactOther == {c \in all : c.mode \in {"exact", "extra"}}
+      \* is matched directly, or (strict_slashes off) a branch rule without its trailing slash, which is
+      \* matched directly too.  When the other-method rules admit it only through the missing-slash
+      \* redirect of a strict branch rule, 404 and 405 are both accepted
+      exactOther == {c \in all : c.mode \in {"exact", "extra"} \/ (c.mode = "slash" /\ ~StrictOf(m, rules[c.r]))}
       Ms(S) == UNION {MethodsOf(rules[c.r]) : c \in S}
   IN IF ok # {} THEN
           [outs |-> {OutcomeOf(rules, m, p, c) : c \in Undominated(rules, ok)},
